@@ -291,3 +291,124 @@ func (cc *cmdCompiler) arg1(call *ssa.Call, role string) ssa.Value {
 	}
 	return nil
 }
+
+// fieldGiven is one place where a function gives a value to a field of an object it builds.
+type fieldGiven struct {
+	val ssa.Value       // the value, in the function's own terms
+	at  ssa.Instruction // the store, or the call that carries the functional option
+}
+
+// fieldsGivenIn lists what fn gives to the struct field named typeField ("Job.Vars"): by a store of its own, or
+// through a functional option — fn calls a constructor of the module whose variadic parameter is a list of
+// func(*T) applied in a loop, with an element built by an option constructor whose closure stores its captured
+// parameter into that field; the value is then the option constructor's argument at fn's call site.
+func fieldsGivenIn(p *an.Prog, fn *ssa.Function, typeField string) []fieldGiven {
+	var out []fieldGiven
+	an.EachInstr(fn, func(in ssa.Instruction) {
+		switch x := in.(type) {
+		case *ssa.Store:
+			if fa, ok := x.Addr.(*ssa.FieldAddr); ok && an.TypeField(fa) == typeField {
+				out = append(out, fieldGiven{x.Val, x})
+			}
+		case *ssa.Call:
+			app := x.Call.StaticCallee()
+			if app == nil || !an.InModule(app) || app.Blocks == nil || !app.Signature.Variadic() || len(x.Call.Args) == 0 {
+				return
+			}
+			last := app.Signature.Params().At(app.Signature.Params().Len() - 1).Type()
+			sl, ok := last.Underlying().(*types.Slice)
+			if !ok {
+				return
+			}
+			optSig, ok := sl.Elem().Underlying().(*types.Signature)
+			if !ok || optSig.Params().Len() != 1 || optSig.Results().Len() != 0 {
+				return
+			}
+			// the constructor applies every option: a call of the ranged element inside a loop over the list
+			applies := false
+			for _, l := range an.Loops(app) {
+				if op := l.RangeOperand(); op != nil && an.SameValue(op, app.Params[len(app.Params)-1]) {
+					_, elems := l.RangeKeyValue()
+					for b := range l.Blocks {
+						for _, i2 := range b.Instrs {
+							if c2, ok := i2.(*ssa.Call); ok && !c2.Call.IsInvoke() {
+								for _, e := range elems {
+									if an.SameValue(c2.Call.Value, e) {
+										applies = true
+									}
+								}
+							}
+						}
+					}
+				}
+			}
+			if !applies {
+				return
+			}
+			for _, el := range an.VariadicElems(x.Call.Args[len(x.Call.Args)-1]) {
+				if el == nil {
+					continue
+				}
+				for _, src := range an.Sources(el) {
+					oc, ok := src.(*ssa.Call)
+					if !ok {
+						continue
+					}
+					w := oc.Call.StaticCallee()
+					if w == nil || !an.InModule(w) || w.Blocks == nil {
+						continue
+					}
+					for _, ret := range an.Returns(w) {
+						rv := an.RetVal(ret, 0)
+						for {
+							ct, isCT := rv.(*ssa.ChangeType)
+							if !isCT {
+								break
+							}
+							rv = ct.X
+						}
+						mc, ok := rv.(*ssa.MakeClosure)
+						if !ok {
+							continue
+						}
+						cl, _ := mc.Fn.(*ssa.Function)
+						if cl == nil || len(cl.Params) != 1 {
+							continue
+						}
+						an.EachInstr(cl, func(i3 ssa.Instruction) {
+							st, ok := i3.(*ssa.Store)
+							if !ok {
+								return
+							}
+							fa, ok := st.Addr.(*ssa.FieldAddr)
+							if !ok || an.TypeField(fa) != typeField || !an.SameValue(fa.X, cl.Params[0]) {
+								return
+							}
+							// the stored value: a captured variable of the option constructor, i.e. one of its parameters
+							for _, sv := range an.ResolveAll(st.Val) {
+								for k, fv := range cl.FreeVars {
+									if sv != ssa.Value(fv) || k >= len(mc.Bindings) {
+										continue
+									}
+									for _, bv := range an.ResolveAll(mc.Bindings[k]) {
+										for j, prm := range w.Params {
+											if bv == ssa.Value(prm) && j < len(oc.Call.Args) {
+												out = append(out, fieldGiven{oc.Call.Args[j], oc})
+											}
+										}
+									}
+								}
+								for j, prm := range w.Params {
+									if sv == ssa.Value(prm) && j < len(oc.Call.Args) {
+										out = append(out, fieldGiven{oc.Call.Args[j], oc})
+									}
+								}
+							}
+						})
+					}
+				}
+			}
+		}
+	})
+	return out
+}
